@@ -116,6 +116,10 @@ type CallbackRec struct {
 
 type recorderKey struct{}
 
+// subspaceKey carries the service module's parameter subspace in the context of a driver action: a passed
+// parameter-change proposal writes there (params module), not through the service keeper.
+type subspaceKey struct{}
+
 type recorder struct {
 	log []CallbackRec
 }
@@ -552,6 +556,9 @@ func (w *World) DeliverMsg(msg sdk.Msg, txHash []byte, msgIndex int64) (res Step
 func (w *World) ModCall(txHash []byte, f func(ctx sdk.Context, k servicekeeper.Keeper) error) (res StepResult) {
 	cctx, write := w.ctx.CacheContext()
 	cctx = cctx.WithValue(servicetypes.TxHash, txHash).WithValue(servicetypes.MsgIndex, int64(0))
+	if ss, ok := w.rig.pk.GetSubspace(servicetypes.ModuleName); ok {
+		cctx = cctx.WithValue(subspaceKey{}, ss)
+	}
 	n0 := len(w.rec.log)
 	func() {
 		defer func() {
